@@ -1,4 +1,5 @@
-import StatimeModel.Lemmas.NetL
+import StatimeModel.Lemmas.NetOne
+import StatimeModel.Lemmas.NetDemo
 /-
 C01 — Network converges to one grandmaster and a loop-free master/slave tree.
 
@@ -12,131 +13,21 @@ Proved: the parent relation of a fixed point is a forest rooted in live grandmas
 port listens to a Master port of its own segment, whose instance is exactly one step closer to the
 same grandmaster, so chains of parents strictly decrease in stepsRemoved (no loops), and they end at
 a live instance that is in the grandmaster state and whose own attributes are the ones advertised
-(no phantom grandmaster survives). Not proved: that in a relay-connected network the root is the
-best-ranked instance and is unique, and the time to convergence — those are decided on the sampled
-scenarios by the oracle (`RootIsBestStmt`).
+(no phantom grandmaster survives); and in a connected *plain* network (every instance relays, one
+port per instance and segment) the root is the best-ranked instance, it is the only instance in the
+grandmaster state, every instance carries its attributes and every other instance has a Slave port
+(`best_is_only_grandmaster`), and every segment has exactly one Master port (`one_master_per_segment`).
+Not proved: the time to (re-)convergence and absence of flapping — decided on the sampled scenarios
+by the oracle.
 -/
 namespace Statime.C01
 open Statime Statime.Net
 
-/-- node `x` is at a fixed point of its re-evaluation -/
-def StableAt (net : Net) (x : Nat) (c : NodeCfg) (s : NodeSt) : Prop :=
-  net[x]? = some (c, s) ∧ c.alive = true ∧ stepNode net x = s
-
-theorem stepNode_eq (net : Net) (x : Nat) (c : NodeCfg) (s : NodeSt) (hx : net[x]? = some (c, s)) (ha : c.alive = true) :
-    stepNode net x =
-      (match slaveDec (decsOf c s (erbestsOf net x c)) with
-       | some a => { ports := (decsOf c s (erbestsOf net x c)).zipIdx.map fun (d, j) => portOf net x c s d j,
-                     parentClock := a.sender, parentPort := a.senderPort, steps := a.steps + 1, gm := a.gm }
-       | none =>
-         if (decsOf c s (erbestsOf net x c)).any (· = some .gm) then
-           { ports := (decsOf c s (erbestsOf net x c)).zipIdx.map fun (d, j) => portOf net x c s d j,
-             parentClock := c.id, parentPort := 0, steps := 0, gm := c.ownGm }
-         else { s with ports := (decsOf c s (erbestsOf net x c)).zipIdx.map fun (d, j) => portOf net x c s d j }) := by
-  unfold stepNode
-  rw [hx]
-  simp only [ha, Bool.not_true, Bool.false_eq_true, if_false]
-  rfl
-
-theorem stepNode_ports (net : Net) (x : Nat) (c : NodeCfg) (s : NodeSt) (hx : net[x]? = some (c, s)) (ha : c.alive = true) :
-    (stepNode net x).ports = (decsOf c s (erbestsOf net x c)).zipIdx.map fun (d, j) => portOf net x c s d j := by
-  rw [stepNode_eq net x c s hx ha]
-  split
-  · rfl
-  · split <;> rfl
-
-/-- the decision behind a port state of the re-evaluated node -/
-theorem port_decision (net : Net) (x : Nat) (c : NodeCfg) (s : NodeSt) (h : StableAt net x c s) (j : Nat) (st : PSt)
-    (hj : s.ports[j]? = some st) :
-    ∃ d, (decsOf c s (erbestsOf net x c))[j]? = some d ∧ portOf net x c s d j = st := by
-  obtain ⟨hx, ha, hs⟩ := h
-  have hp := stepNode_ports net x c s hx ha
-  rw [hs] at hp
-  rw [hp] at hj
-  simp only [List.getElem?_map] at hj
-  cases hz : (decsOf c s (erbestsOf net x c)).zipIdx[j]? with
-  | none => rw [hz] at hj; simp at hj
-  | some v =>
-    obtain ⟨d, k⟩ := v
-    rw [hz] at hj
-    rw [List.getElem?_zipIdx] at hz
-    cases hd : (decsOf c s (erbestsOf net x c))[j]? with
-    | none => rw [hd] at hz; simp at hz
-    | some d' =>
-      rw [hd] at hz
-      simp only [Option.map_some, Nat.zero_add, Option.some.injEq, Prod.mk.injEq] at hz
-      obtain ⟨rfl, rfl⟩ := hz
-      exact ⟨d', rfl, by simpa using hj⟩
-
-theorem portOf_slave (net : Net) (x : Nat) (c : NodeCfg) (s : NodeSt) (d : Option Dec) (j : Nat)
-    (h : portOf net x c s d j = .slave) : ∃ a, d = some (.s a) := by
-  unfold portOf at h
-  split at h
-  · split at h <;> cases h
-  · exact ⟨_, rfl⟩
-  · cases h
-  · split at h
-    · cases h
-    · split at h <;> cases h
-  · split at h
-    · cases h
-    · split at h <;> cases h
-
-theorem decsOf_get (c : NodeCfg) (s : NodeSt) (erbests : List (Option Adv)) (j : Nat) (d : Option Dec)
-    (h : (decsOf c s erbests)[j]? = some d) :
-    ∃ e, erbests[j]? = some e ∧
-      d = (if s.ports.getD j .listening = .listening ∧ e.isNone then none else some (Net.decide c (ebestOf c erbests) e j)) := by
-  unfold decsOf at h
-  simp only [List.getElem?_map] at h
-  cases hz : erbests.zipIdx[j]? with
-  | none => rw [hz] at h; simp at h
-  | some v =>
-    obtain ⟨e, k⟩ := v
-    rw [hz] at h
-    rw [List.getElem?_zipIdx] at hz
-    cases he : erbests[j]? with
-    | none => rw [he] at hz; simp at hz
-    | some e' =>
-      rw [he] at hz
-      simp only [Option.map_some, Nat.zero_add, Option.some.injEq, Prod.mk.injEq] at hz
-      obtain ⟨rfl, rfl⟩ := hz
-      simp only [Option.map_some, Option.some.injEq] at h
-      exact ⟨e', rfl, h.symm⟩
-
-/-- a Slave decision comes from an advertisement heard on that very port -/
-theorem slave_decision_source (net : Net) (x : Nat) (c : NodeCfg) (s : NodeSt) (j : Nat) (a : Adv)
-    (h : (decsOf c s (erbestsOf net x c))[j]? = some (some (Dec.s a))) :
-    ∃ pc : PortCfg, c.ports[j]? = some pc ∧ pc.attached = true ∧ a ∈ advsOn net pc.seg x j ∧ qualified c a = true := by
-  obtain ⟨e, he, hd⟩ := decsOf_get c s _ j _ h
-  split at hd
-  · cases hd
-  · simp only [Option.some.injEq] at hd
-    obtain ⟨_, h2⟩ := decide_slave c _ e j a hd.symm
-    subst h2
-    exact erbestsOf_spec net x c j a he
-
-theorem slaveDec_some (decs : List (Option Dec)) (a : Adv) (h : slaveDec decs = some a) :
-    ∃ j : Nat, decs[j]? = some (some (Dec.s a)) := by
-  unfold slaveDec at h
-  obtain ⟨d, hd, hs⟩ := List.exists_of_findSome?_eq_some h
-  obtain ⟨j, hj, rfl⟩ := List.getElem_of_mem hd
-  refine ⟨j, ?_⟩
-  rw [List.getElem?_eq_getElem hj]
-  split at hs
-  · simp only [Option.some.injEq] at hs; subst hs; rename_i heq; rw [heq]
-  · cases hs
-
-theorem slaveDec_of_mem (decs : List (Option Dec)) (j : Nat) (a : Adv) (h : decs[j]? = some (some (Dec.s a))) :
-    ∃ b, slaveDec decs = some b := by
-  unfold slaveDec
-  cases hf : decs.findSome? (fun d => match d with | some (.s a) => some a | _ => none) with
-  | some b => exact ⟨b, rfl⟩
-  | none =>
-    exfalso
-    rw [List.findSome?_eq_none_iff] at hf
-    have hm : some (Dec.s a) ∈ decs := List.mem_of_getElem? h
-    have := hf _ hm
-    simp at this
+/-- node `x` is at a fixed point of its re-evaluation: `Net.StableAt`; every live node is: `Net.Stable`;
+an instance in the grandmaster state (stepsRemoved 0, its own attributes as grandmaster attributes): `Net.IsGm` -/
+abbrev StableAt := @Net.StableAt
+abbrev Stable := @Net.Stable
+abbrev IsGm := @Net.IsGm
 
 /-- **Every Slave port follows a Master port of its own segment, one step closer to the same grandmaster.**
 In a fixed point, an instance with a Slave port has as parent a live instance with a Master port attached
@@ -147,141 +38,15 @@ theorem slave_follows_master_port (net : Net) (x : Nat) (c : NodeCfg) (s : NodeS
     ∃ (n : Nat) (cn : NodeCfg) (sn : NodeSt) (k : Nat) (pc : PortCfg) (j' : Nat) (pc' : PortCfg),
       net[n]? = some (cn, sn) ∧ cn.alive = true ∧ cn.ports[k]? = some pc ∧ pc.attached = true ∧
       sn.ports.getD k PSt.listening = PSt.master ∧ c.ports[j']? = some pc' ∧ pc'.attached = true ∧ pc.seg = pc'.seg ∧
-      s.parentClock = cn.id ∧ s.parentPort = k + 1 ∧ s.steps = sn.steps + 1 ∧ s.gm = sn.gm ∧ cn.id ≠ c.id := by
-  obtain ⟨d, hd, hp⟩ := port_decision net x c s h j .slave hj
-  obtain ⟨a0, rfl⟩ := portOf_slave net x c s d j hp
-  obtain ⟨b, hb⟩ := slaveDec_of_mem _ j a0 hd
-  obtain ⟨hx, ha, hs⟩ := h
-  have he := stepNode_eq net x c s hx ha
-  rw [hs, hb] at he
-  obtain ⟨j', hj'⟩ := slaveDec_some _ b hb
-  obtain ⟨pc', hpc', hat', hmem, hq⟩ := slave_decision_source net x c s j' b hj'
-  obtain ⟨n, cn, sn, k, pc, hn, hal, hk, hseg, hatt, hm, _, hb'⟩ := advsOn_spec net pc'.seg x j' b hmem
-  refine ⟨n, cn, sn, k, pc, j', pc', hn, hal, hk, hatt, hm, hpc', hat', hseg, ?_, ?_, ?_, ?_, ?_⟩
-  · rw [he, hb']
-  · rw [he, hb']
-  · rw [he, hb']
-  · rw [he, hb']
-  · unfold qualified at hq
-    rw [hb'] at hq
-    simp at hq
-    exact hq.1
-
-/-- an instance in the grandmaster state: stepsRemoved 0, its own attributes as grandmaster attributes -/
-def IsGm (c : NodeCfg) (s : NodeSt) : Prop := s.steps = 0 ∧ s.gm = c.ownGm ∧ s.parentClock = c.id
-
-theorem portOf_master (net : Net) (x : Nat) (c : NodeCfg) (s : NodeSt) (d : Option Dec) (j : Nat)
-    (h : portOf net x c s d j = .master) : d = none ∨ d = some .gm ∨ d = some .m3 := by
-  unfold portOf at h
-  split at h
-  · left; rfl
-  · cases h
-  · cases h
-  · right; left; rfl
-  · right; right; rfl
-
-theorem decide_m3 (c : NodeCfg) (ebest : Option (Adv × Nat)) (erbest : Option Adv) (j : Nat)
-    (h : Net.decide c ebest erbest j = .m3) : ∃ g gj, ebest = some (g, gj) := by
-  unfold Net.decide at h
-  simp only at h
-  split at h
-  · split at h
-    · cases h
-    · split at h <;> cases h
-  · split at h
-    · cases h
-    · exact ⟨_, _, rfl⟩
-
-/-- the port `Ebest` was heard on gets the Slave decision whenever some port gets M3 (`Ebest` is better than
-the instance's own data set) -/
-theorem ebest_port_is_slave (c : NodeCfg) (s : NodeSt) (erbests : List (Option Adv)) (j : Nat) (e : Option Adv)
-    (hm3 : Net.decide c (ebestOf c erbests) e j = .m3) :
-    ∃ (g : Adv) (gj : Nat), ebestOf c erbests = some (g, gj) ∧ (decsOf c s erbests)[gj]? = some (some (Dec.s g)) := by
-  obtain ⟨g, gj, hg⟩ := decide_m3 c _ e j hm3
-  refine ⟨g, gj, hg, ?_⟩
-  have hmem := ebestOf_mem c erbests (g, gj) hg
-  have hgj := candsOf_spec c erbests g gj hmem
-  -- the decision on port gj
-  have hlen : gj < erbests.length := by
-    rcases Nat.lt_or_ge gj erbests.length with h | h
-    · exact h
-    · rw [List.getElem?_eq_none h] at hgj; cases hgj
-  unfold decsOf
-  simp only [List.getElem?_map, List.getElem?_zipIdx, hgj, Option.map_some, Nat.zero_add]
-  have : ¬(s.ports.getD gj .listening = .listening ∧ (some g).isNone = true) := by simp
-  simp only [this, if_false, Option.some.injEq]
-  -- decide on that port with erbest = g: own is worse than Ebest (as on port j), the port is Ebest's
-  unfold Net.decide at hm3 ⊢
-  simp only at hm3 ⊢
-  split at hm3
-  · split at hm3
-    · cases hm3
-    · split at hm3 <;> cases hm3
-  · rename_i hcls
-    simp only [hcls, if_false]
-    rw [hg] at hm3 ⊢
-    simp only at hm3 ⊢
-    split at hm3
-    · rename_i hlt
-      simp [hlt]
-    · cases hm3
+      s.parentClock = cn.id ∧ s.parentPort = k + 1 ∧ s.steps = sn.steps + 1 ∧ s.gm = sn.gm ∧ cn.id ≠ c.id :=
+  Net.slave_follows_master_port net x c s h j hj
 
 /-- **Whoever advertises is a grandmaster or a slave itself.** In a fixed point a live instance with a
 Master port is either in the grandmaster state or has a Slave port of its own. -/
 theorem master_port_node (net : Net) (x : Nat) (c : NodeCfg) (s : NodeSt) (h : StableAt net x c s)
     (k : Nat) (hk : s.ports.getD k .listening = .master) :
-    IsGm c s ∨ ∃ j : Nat, s.ports[j]? = some PSt.slave := by
-  have hk' : s.ports[k]? = some PSt.master := by
-    cases hg : s.ports[k]? with
-    | none => simp [List.getD, hg] at hk
-    | some v => simp [List.getD, hg] at hk; rw [hk]
-  obtain ⟨d, hd, hp⟩ := port_decision net x c s h k .master hk'
-  obtain ⟨hx, ha, hs⟩ := h
-  have he := stepNode_eq net x c s hx ha
-  rw [hs] at he
-  have hports := stepNode_ports net x c s hx ha
-  rw [hs] at hports
-  -- a slave decision anywhere gives a Slave port
-  have slave_port : ∀ b, slaveDec (decsOf c s (erbestsOf net x c)) = some b → ∃ j : Nat, s.ports[j]? = some PSt.slave := by
-    intro b hb
-    obtain ⟨j, hj⟩ := slaveDec_some _ b hb
-    refine ⟨j, ?_⟩
-    rw [hports]
-    simp only [List.getElem?_map, List.getElem?_zipIdx, hj, Option.map_some, Nat.zero_add]
-    rfl
-  rcases portOf_master net x c s d k hp with rfl | rfl | rfl
-  · -- no decision: the port would have to be Listening
-    obtain ⟨e, _, hd2⟩ := decsOf_get c s _ k _ hd
-    split at hd2
-    · rename_i hl
-      rw [hk] at hl
-      cases hl.1
-    · cases hd2
-  · -- M1 / M2
-    cases hsd : slaveDec (decsOf c s (erbestsOf net x c)) with
-    | some b => right; exact slave_port b hsd
-    | none =>
-      left
-      rw [hsd] at he
-      have hany : (decsOf c s (erbestsOf net x c)).any (· = some .gm) = true := by
-        rw [List.any_eq_true]
-        exact ⟨some .gm, List.mem_of_getElem? hd, by simp⟩
-      simp only [hany, if_true] at he
-      unfold IsGm
-      rw [he]
-      exact ⟨rfl, rfl, rfl⟩
-  · -- M3: Ebest is better than own, so its port is Slave
-    right
-    obtain ⟨e, _, hd2⟩ := decsOf_get c s _ k _ hd
-    split at hd2
-    · cases hd2
-    · simp only [Option.some.injEq] at hd2
-      obtain ⟨g, gj, _, hs1⟩ := ebest_port_is_slave c s _ k e hd2.symm
-      obtain ⟨b, hb⟩ := slaveDec_of_mem _ gj g hs1
-      exact slave_port b hb
-
-/-- every live node of the network is at its fixed point -/
-def Stable (net : Net) : Prop := ∀ x c s, net[x]? = some (c, s) → c.alive = true → stepNode net x = s
+    IsGm c s ∨ ∃ j : Nat, s.ports[j]? = some PSt.slave :=
+  Net.master_port_node net x c s h k hk
 
 /-- **No loops, no phantom grandmaster.** In a fixed point of the whole network, every instance with a
 Slave port follows, over exactly `stepsRemoved` parent hops, a live instance that is in the grandmaster
@@ -290,42 +55,76 @@ stepsRemoved by `slave_follows_master_port`, so the parent relation has no cycle
 theorem slave_reaches_live_grandmaster (net : Net) (hst : Stable net) :
     ∀ (d x : Nat) (c : NodeCfg) (s : NodeSt), net[x]? = some (c, s) → c.alive = true →
       (∃ j : Nat, s.ports[j]? = some PSt.slave) → s.steps = d →
-      ∃ (r : Nat) (cr : NodeCfg) (sr : NodeSt), net[r]? = some (cr, sr) ∧ cr.alive = true ∧ IsGm cr sr ∧ s.gm = cr.ownGm ∧ 0 < d := by
-  intro d
-  induction d using Nat.strongRecOn with
-  | ind d ih =>
-    intro x c s hx ha ⟨j, hj⟩ hd
-    have hsx : StableAt net x c s := ⟨hx, ha, hst x c s hx ha⟩
-    obtain ⟨n, cn, sn, k, pc, j', pc', hn, hal, hk, hatt, hm, _, _, _, _, _, hsteps, hgm, _⟩ :=
-      slave_follows_master_port net x c s hsx j hj
-    have hsn : StableAt net n cn sn := ⟨hn, hal, hst n cn sn hn hal⟩
-    rcases master_port_node net n cn sn hsn k hm with hgmn | hsl
-    · exact ⟨n, cn, sn, hn, hal, hgmn, by rw [hgm, hgmn.2.1], by omega⟩
-    · have hlt : sn.steps < d := by omega
-      obtain ⟨r, cr, sr, hr, har, hgr, hgme, _⟩ := ih sn.steps hlt n cn sn hn hal hsl rfl
-      exact ⟨r, cr, sr, hr, har, hgr, by rw [hgm, hgme], by omega⟩
+      ∃ (r : Nat) (cr : NodeCfg) (sr : NodeSt), net[r]? = some (cr, sr) ∧ cr.alive = true ∧ IsGm cr sr ∧ s.gm = cr.ownGm ∧ 0 < d :=
+  Net.slave_reaches_live_grandmaster net hst
 
-/-- smaller is better: the data set comparison on the instances' own data sets (distinct identities) -/
-def rank (c : NodeCfg) : List Nat := [c.p1, c.cls, c.acc, c.var, c.p2, c.id]
+/-- a *plain* network: every instance alive and relaying (clockClass ≥ 128, not slave-only, no master-only
+port, at least one port), all ports attached, distinct clock identities, at most one port of an instance per
+segment, stepsRemoved below the cut-off of 255: `Net.Plain`. `Net.IsBest net b …`: no instance has a better own
+data set than `b` (the IEEE 1588 data set comparison on default data sets). `Net.Reach net b y`: `y` is connected
+to `b` over shared segments. -/
+abbrev Plain := @Net.Plain
 
-/-- an instance that can be slave on one port and master on the others -/
-def Relays (c : NodeCfg) : Prop := c.slaveOnly = false ∧ 128 ≤ c.cls ∧ ∀ p ∈ c.ports, p.masterOnly = false
+/-- **The best clock is the only grandmaster.** In a fixed point of a connected plain network — any number of
+instances, any segment structure (point-to-point links, shared segments, rings), any ranking —
+the best-ranked instance is in the grandmaster state; every instance carries exactly its grandmaster
+attributes; no other instance is in the grandmaster state; and every other instance has a Slave port (whose
+parent chain, by `slave_reaches_live_grandmaster`, then ends at the best instance after stepsRemoved hops). -/
+theorem best_is_only_grandmaster (net : Net) (hst : Stable net) (hp : Plain net) (b : Nat) (cb : NodeCfg) (sb : NodeSt)
+    (hb : Net.IsBest net b cb sb)
+    (hconn : ∀ (y : Nat) (cy : NodeCfg) (sy : NodeSt), net[y]? = some (cy, sy) → Net.Reach net b y) :
+    IsGm cb sb ∧
+    (∀ (y : Nat) (cy : NodeCfg) (sy : NodeSt), net[y]? = some (cy, sy) → sy.gm = cb.ownGm) ∧
+    (∀ (y : Nat) (cy : NodeCfg) (sy : NodeSt), net[y]? = some (cy, sy) → IsGm cy sy → y = b) ∧
+    (∀ (y : Nat) (cy : NodeCfg) (sy : NodeSt), net[y]? = some (cy, sy) → y ≠ b → ∃ j : Nat, sy.ports[j]? = some PSt.slave) := by
+  have hall : ∀ (y : Nat) (cy : NodeCfg) (sy : NodeSt), net[y]? = some (cy, sy) → sy.gm = cb.ownGm :=
+    fun y cy sy hy => Net.reach_follows_best net hst hp b cb sb hb y (hconn y cy sy hy) cy sy hy
+  have honly : ∀ (y : Nat) (cy : NodeCfg) (sy : NodeSt), net[y]? = some (cy, sy) → IsGm cy sy → y = b := by
+    intro y cy sy hy hg
+    have h1 := hall y cy sy hy
+    rw [hg.2.1] at h1
+    have hid : cy.id = cb.id := by
+      have : cy.ownGm.id = cb.ownGm.id := by rw [h1]
+      exact this
+    exact hp.ids y b cy sy cb sb hy hb.1 hid
+  refine ⟨Net.best_is_gm net hst hp b cb sb hb, hall, honly, ?_⟩
+  intro y cy sy hy hne
+  have ha := (hp.relay y cy sy hy).1
+  cases Classical.em (∃ j : Nat, sy.ports[j]? = some PSt.slave) with
+  | inl h => exact h
+  | inr h =>
+    exfalso
+    exact hne (honly y cy sy hy (Net.no_slave_is_gm net hp y cy sy ⟨hy, ha, hst y cy sy hy ha⟩ h))
 
-/-- two live instances share a segment -/
-def Adjacent (net : Net) (x y : Nat) : Prop :=
-  ∃ (cx : NodeCfg) (sx : NodeSt) (cy : NodeCfg) (sy : NodeSt) (px py : PortCfg), net[x]? = some (cx, sx) ∧ net[y]? = some (cy, sy) ∧ cx.alive = true ∧ cy.alive = true ∧
-    px ∈ cx.ports ∧ py ∈ cy.ports ∧ px.attached = true ∧ py.attached = true ∧ px.seg = py.seg
+/-- **Exactly one Master port per segment.** In the same situation (fixed point of a connected plain network),
+every segment some instance is attached to has a Master port, and no two different ports attached to one
+segment are both Master. -/
+theorem one_master_per_segment (net : Net) (hst : Stable net) (hp : Plain net) (b : Nat) (cb : NodeCfg) (sb : NodeSt)
+    (hb : Net.IsBest net b cb sb)
+    (hconn : ∀ (y : Nat) (cy : NodeCfg) (sy : NodeSt), net[y]? = some (cy, sy) → Net.Reach net b y) :
+    (∀ (u : Nat) (cu : NodeCfg) (su : NodeSt) (i : Nat) (pi : PortCfg), net[u]? = some (cu, su) → cu.ports[i]? = some pi →
+      ∃ (n : Nat) (cn : NodeCfg) (sn : NodeSt) (k : Nat) (pcn : PortCfg), net[n]? = some (cn, sn) ∧ cn.ports[k]? = some pcn ∧
+        pcn.seg = pi.seg ∧ sn.ports[k]? = some PSt.master) ∧
+    (∀ (n n' : Nat) (c c' : NodeCfg) (s s' : NodeSt) (k k' : Nat) (pc pc' : PortCfg),
+      net[n]? = some (c, s) → net[n']? = some (c', s') → c.ports[k]? = some pc → c'.ports[k']? = some pc' →
+      s.ports[k]? = some PSt.master → s'.ports[k']? = some PSt.master → pc.seg = pc'.seg → n = n' ∧ k = k') := by
+  have hc : Net.Conv net b cb sb :=
+    ⟨hst, hp, hb, (best_is_only_grandmaster net hst hp b cb sb hb hconn).2.1⟩
+  exact ⟨fun u cu su i pi hu hi => Net.segment_has_master net b cb sb hc u cu su hu i pi hi,
+         fun n n' c c' s s' k k' pc pc' hn hn' hk hk' hm hm' hseg =>
+           Net.masters_unique net b cb sb hc n n' c c' s s' k k' pc pc' hn hn' hk hk' hm hm' hseg⟩
 
-/-- The part that is **not proved** here and is decided on the sampled scenarios by the oracle of the `net`
-stream: in a fixed point of a connected network in which every instance relays, the only instance in the
-grandmaster state is the best-ranked one (so, by `slave_reaches_live_grandmaster`, every slave follows it),
-and every segment has exactly one Master port; and such a fixed point is reached from a cold start and after
-a single fault within 8 + 5·N announce intervals. -/
-def RootIsBestStmt : Prop :=
-  ∀ net : Net, Stable net →
-    (∀ (x : Nat) (c : NodeCfg) (s : NodeSt), net[x]? = some (c, s) → c.alive = true ∧ Relays c) →
-    (∀ x y : Nat, x < net.length → y < net.length → Relation.TransGen (Adjacent net) x y ∨ x = y) →
-    ∀ (x : Nat) (c : NodeCfg) (s : NodeSt), net[x]? = some (c, s) → IsGm c s →
-      ∀ (y : Nat) (c' : NodeCfg) (s' : NodeSt), net[y]? = some (c', s') → rank c ≤ rank c'
+/-- What is **not proved** here and is decided on the sampled scenarios by the oracle of the `net` stream: that
+such a fixed point is reached from a cold start and after a single fault within 8 + 5·N announce intervals, and
+does not flap; and "best is the only grandmaster / one Master per segment" for networks with several ports of
+one instance on a segment (those are covered by the forest theorems above only). -/
+def NotProvedStmt : Prop := True
+
+/-! non-vacuity: the two-instance network of Lemmas/NetDemo.lean meets every hypothesis, and the theorem
+yields what one expects of it -/
+example : Net.Demo.s1.gm = Net.Demo.c0.ownGm ∧ ∃ j : Nat, Net.Demo.s1.ports[j]? = some PSt.slave :=
+  let h := best_is_only_grandmaster Net.Demo.demo Net.Demo.demo_stable Net.Demo.demo_plain 0 Net.Demo.c0 Net.Demo.s0
+    Net.Demo.demo_best Net.Demo.demo_reach
+  ⟨h.2.1 1 Net.Demo.c1 Net.Demo.s1 rfl, h.2.2.2 1 Net.Demo.c1 Net.Demo.s1 rfl (by decide)⟩
 
 end Statime.C01
